@@ -45,6 +45,10 @@ TOOL_NAMES = ("zip", "map", "filter", "filterfalse", "enumerate", "accumulate", 
               "cycle", "dropwhile", "takewhile", "islice", "pairwise", "zip_longest", "tee", "groupby", "merge")
 
 
+class BlockStop(StopAsyncIteration):
+    """What a bare ``await anext(exhausted)`` inside the block raises - an exception like any other to the scope"""
+
+
 class BlockError(Exception):
     pass
 
@@ -83,6 +87,7 @@ def prepare(ch):
     # the iterable handed to scoped_iter may itself be a borrowed handle: the scope must end *that* handle at exit
     # (and, being only borrowed, what is underneath stays open)
     prep.src.lazy_open = False  # (the probes after the block advance iterators directly)
+    prep.block_stop = ch.chance(1, 4)  # the exception leaving the block is a StopAsyncIteration
     prep.borrowed = prep.src.flavour in ("agen", "aiter_cls", "aiter_full") and ch.chance(1, 6)
     ops = []
     depth = 1
@@ -202,7 +207,7 @@ def run_block(prep, st, mode, pos, interrupts):
                 handles.append(h1)
                 await run_ops(prep.ops, 0, handles, left)
                 res["exit"] = "fallthrough"
-        except (BlockError, ScopeError):
+        except (BlockError, ScopeError, BlockStop):
             res["exit"] = "exception"
         except Cancel:
             res["exit"] = "cancel"
@@ -254,7 +259,7 @@ def run_block(prep, st, mode, pos, interrupts):
         while i < len(ops):
             if mode == 1 and pos == i:
                 res["reached"] = True
-                raise BlockError("after op %d" % i)
+                raise (BlockStop if prep.block_stop else BlockError)("after op %d" % i)
             op = ops[i]
             h = handles[-1]
             if op[0] == "tool":
@@ -355,7 +360,7 @@ def run_block(prep, st, mode, pos, interrupts):
                 return i + 1
         if mode == 1 and pos >= len(ops) and len(handles) == 1:
             res["reached"] = True
-            raise BlockError("at the end")
+            raise (BlockStop if prep.block_stop else BlockError)("at the end")
         return i
 
     task = sim.spawn(block())
